@@ -226,7 +226,9 @@ impl Exec {
 		if self.bg_err {
 			expected = Err("database is in the background-error state".into());
 		}
-		let before = if expected.is_err() { Some((self.digest(), crate::search::hash_dir(&self.dir))) } else { None };
+		// a dereference of a root that is gone in commit order may be refused or accepted as a no-op
+		let may_reject = expected.is_ok() && self.model.derefs_missing_root(tx);
+		let before = if expected.is_err() || may_reject { Some((self.digest(), crate::search::hash_dir(&self.dir))) } else { None };
 		let db = self.db();
 		let r = catch_unwind(AssertUnwindSafe(|| db.commit_changes(ops)));
 		match (r, expected) {
@@ -264,6 +266,14 @@ impl Exec {
 					}
 					return Err(Fail::new("trace", format!(
 						"rejected commit {} left a trace: {}", tx_short(tx), what.join("; "))))
+				}
+				Ok(false)
+			},
+			(Ok(Err(_)), Ok(())) if may_reject => {
+				self.rejected += 1;
+				let (d0, f0) = before.unwrap();
+				if d0.rest_hash != self.digest().rest_hash || f0 != crate::search::hash_dir(&self.dir) {
+					return Err(Fail::new("trace", format!("rejected commit {} left a trace", tx_short(tx))))
 				}
 				Ok(false)
 			},
